@@ -84,18 +84,21 @@ def is_len_of(e: ast.AST, name: str) -> bool:
     return isinstance(e, ast.Call) and isinstance(e.func, ast.Name) and e.func.id == "len" and len(e.args) == 1 and isinstance(e.args[0], ast.Name) and e.args[0].id == name
 
 
-def prefix_idiom(ctx: Ctx, f, lst: str, nump: str, frame=None, env=None, _depth: int = 0):
+def prefix_idiom(ctx: Ctx, f, lst: Optional[str], nump: str, frame=None, env=None, _depth: int = 0, value: Optional[ast.AST] = None):
     """True / False / None(inconclusive) + explanation.  (frame, env): the function whose local `lst` is - stop itself, or a
     helper spliced into it that computes the list and returns it."""
     from ..cfg import bind_args, strip_cast
 
     frame = frame or f
     sc = ctx.an.scope(frame)
-    hows = sc.defs.get(lst, [])
-    vals = [h[1] for h in hows if h[0] == "assign"] + [h[2] for h in hows if h[0] == "ann"]
-    if len(vals) != 1:
-        return None, "the id list has several definitions"
-    v = strip_cast(vals[0])
+    if value is not None:
+        v = strip_cast(value)  # (the list is the expression a helper returns)
+    else:
+        hows = sc.defs.get(lst, [])
+        vals = [h[1] for h in hows if h[0] == "assign"] + [h[2] for h in hows if h[0] == "ann"]
+        if len(vals) != 1:
+            return None, "the id list has several definitions"
+        v = strip_cast(vals[0])
     if isinstance(v, ast.Call) and id(v) in ctx.an.spliced_at and _depth < 3:
         t = ctx.an.spliced_at[id(v)]
         sub = bind_args(v, t, frame, env)
@@ -104,6 +107,8 @@ def prefix_idiom(ctx: Ctx, f, lst: str, nump: str, frame=None, env=None, _depth:
         nump2 = next((pn for pn, (_c, arg, _e) in sub.items() if isinstance(arg, ast.Name) and arg.id == nump), None)
         if len(names) == 1 and len(rets) == len([r for r in rets if isinstance(r, ast.Name)]) and nump2 is not None:
             return prefix_idiom(ctx, f, names.pop(), nump2, t, sub, _depth + 1)
+        if len(rets) == 1 and not isinstance(rets[0], ast.Name) and nump2 is not None:
+            return prefix_idiom(ctx, f, None, nump2, t, sub, _depth + 1, value=rets[0])
         return None, "the id list comes from a helper whose result is not understood"
 
     class _P:
@@ -113,8 +118,23 @@ def prefix_idiom(ctx: Ctx, f, lst: str, nump: str, frame=None, env=None, _depth:
             return ctx.eff.rebase(p, frame, env) if p is not None else None
     P = _P
 
+    def live_value(e: ast.AST) -> ast.AST:
+        """a local of this frame -> the value of its only binding that is reachable in stop's flow graph (the frame may be a helper
+        spliced in with a literal flag: the other arm of `if flag:` is not there)"""
+        e = strip_cast(e)
+        for _ in range(4):
+            if not (isinstance(e, ast.Name) and e.id in sc.defs and e.id not in sc.params):
+                break
+            live = ctx.distinct_sites(ctx.nodes(f, lambda n: n.op == "assign" and n.func is frame and isinstance(n.ast, (ast.Assign, ast.AnnAssign))
+                                                and any(isinstance(t_, ast.Name) and t_.id == e.id for t_ in (n.ast.targets if isinstance(n.ast, ast.Assign) else [n.ast.target]))))
+            if len(live) != 1 or live[0].ast.value is None or live[0].loops:
+                break
+            e = strip_cast(live[0].ast.value)
+        return e
+
     def reversed_running(e: ast.AST) -> Optional[bool]:
         """True: reversed view of the running registry; False: the registry in another order; None: something else"""
+        e = live_value(e)
         if isinstance(e, ast.Call) and isinstance(e.func, ast.Name) and e.func.id == "reversed" and len(e.args) == 1:
             inner = e.args[0]
             if isinstance(inner, ast.Call) and isinstance(inner.func, ast.Name) and inner.func.id in ("list", "tuple") and len(inner.args) == 1:
@@ -257,6 +277,13 @@ def prefix_idiom(ctx: Ctx, f, lst: str, nump: str, frame=None, env=None, _depth:
         e = e.args[0]
 
     def nonneg_num(x: ast.AST) -> Optional[bool]:
+        x = live_value(x)
+        if isinstance(x, ast.Call) and isinstance(x.func, ast.Name) and x.func.id == "min" and len(x.args) == 2 and not x.keywords:
+            # min(max(num, 0), len(running)): capping the bound at the number of running tasks changes nothing
+            for a_, b_ in (x.args, x.args[::-1]):
+                if isinstance(b_, ast.Call) and isinstance(b_.func, ast.Name) and b_.func.id == "len" and len(b_.args) == 1 and P.of(b_.args[0]) == RUN:
+                    return nonneg_num(a_)
+            return None
         txt = ast.unparse(x).replace(" ", "")
         if txt in (f"max({nump},0)", f"max(0,{nump})"):
             return True
